@@ -91,7 +91,10 @@ def gen_case(rng, i, tier):
             "dask": rng.choice([None, None, "synchronous", "threads"]),
             "suffix": rng.choice([None, None, "_on_rho", ""]), "name": rng.choice(["foo", "temp", None, "temp_transformed", "sal_on_rho"]),
             "tdname": rng.choice(["dens", "sigma0", None]), "extra_pos": rng.sample(["left", "outer"], rng.choice([0, 1])),
-            "dtype": rng.choice(["float64"] * 7 + ["int64", "float32", "float32"]), "decimal": decimal, "td_int": td_int}
+            "dtype": rng.choice(["float64"] * 7 + ["int64", "float32", "float32"]), "decimal": decimal, "td_int": td_int,
+            # a DataArray target may carry coordinate labels along its own dimension (level numbers, names of surfaces ...)
+            # that are not its values, and a scalar coordinate: the levels are its values
+            "tlabels": rng.choice([None, "index", "other", "other+scalar"])}
 
 
 def model_column(xs, ys, levels, mask, log):
@@ -125,7 +128,7 @@ def run_case(ctx, desc):
         data = np.round(data).astype("int64")  # integer-typed data (counts); the levels stay fractional
     elif dt == "float32":
         data = data.astype("float32")  # quarter-integers are exact in float32; target_data and levels stay float64
-    feats = (desc["path"] + ("-td-omitted" if desc.get("omit_td") and desc["path"] == "grid" else ""), dt, desc.get("decimal", False), method, "".join(sorted(set(desc["dirs"]))), mask, bypass, desc["tkind"], desc["places"], desc["dask"] if desc["path"] == "grid" else None)
+    feats = (desc["path"] + ("-td-omitted" if desc.get("omit_td") and desc["path"] == "grid" else ""), dt, desc.get("decimal", False), method, "".join(sorted(set(desc["dirs"]))), mask, bypass, desc["tkind"] + ("-labelled" if desc.get("tlabels") and desc["tkind"] != "ndarray" else ""), desc["places"], desc["dask"] if desc["path"] == "grid" else None)
     nontrivial = any(p in ("inside", "outside") for p in desc["places"])
     ctx.judged(feats, nontrivial)
     if ctx.evaluations % 60 == 1:
@@ -210,6 +213,12 @@ def run_grid(ctx, desc, data, theta, feats):
         target = xr.DataArray(np.array(desc["levels"], float), dims=["col", "lev"])
         newdim = "lev"
         kw["target_dim"] = "lev"
+    tl = desc.get("tlabels")
+    if tl and tkind != "ndarray":
+        nl = target.sizes["lev"]
+        target = target.assign_coords(lev=("lev", np.arange(nl) if tl == "index" else 1000.0 - 7.5 * np.arange(nl)))
+        if tl.endswith("scalar"):
+            target = target.assign_coords(reference_pressure=2000.0)
     if desc["suffix"] is not None:
         kw["suffix"] = desc["suffix"]
     if desc["dask"]:
